@@ -239,7 +239,7 @@ def judge(case, w, r, s0, s1, plan_label, out, delivered_events):
 def copy_phase(r):
     """the run went through the cross-device fallback: a rename answered
     EXDEV (by the virtual mount table) before the fault"""
-    return any(e['op'] == 'rename' and e.get('r') == 'V' and e.get('e') == 18
+    return any(e['op'] == 'rename' and e.get('r') in ('V', 'E') and e.get('e') == 18
                for e in r.events)
 
 
